@@ -1,58 +1,1111 @@
-(* C01: the replay of the delivered event stream (harness/pipeprops.py: replay, in_scope, scope_listing) as a
-   Gallina function, the drain of the pipeline as a function with fuel, and the first sequential-layer lemma. *)
-Require Import WD.Base.Prelude WD.Base.BStr WD.Model.SubEvents WD.Model.Emitter WD.Model.Fs WD.Model.Reader.
-Require Import WD.Proofs.CoverProofs.
-Require Import WD.Model.Pipeline.
+(* C01: the replay of the delivered event stream (harness/pipeprops.py: replay / in_scope / scope_listing) as a
+   Gallina function over association lists (Python dicts), its pointwise semantics, and the one-operation
+   replay lemmas for the reader + buffer + emitter composition ([Contract.deliver_one]).
+   [in_scope] is Contract.in_scope (under the root, non-recursive: a direct child); it agrees with pipeprops.in_scope
+   on every path of a well-formed tree. *)
+Require Import WD.Base.Prelude WD.Base.BStr WD.Model.SubEvents WD.Model.Emitter WD.Model.Fs WD.Model.Reader
+               WD.Model.Contract.
+Require Import WD.Proofs.SubEventsProofs WD.Proofs.ContractProofs WD.Proofs.CoverProofs.
 
-Definition tree := list (bytes * bool).          (* path -> is_dir; compared as finite maps (Python dicts) *)
+Local Arguments sep : simpl never.
+
+Definition tset_eq := @alookup_aset_eq bytes bool beqb beqb_eq.
+Definition tset_neq := @alookup_aset_neq bytes bool beqb beqb_eq.
+
+Definition tree := list (bytes * bool).          (* path -> is_dir: a Python dict, keys unique *)
 
 Definition below (p k : bytes) : bool := beqb k p || under p k.
-
-(* in_scope(run, p): strictly below the root; non-recursive: a direct child *)
-Definition in_scope (recursive : bool) (root p : bytes) : bool :=
-  under root p && (recursive || negb (existsb (N.eqb sep) (skipn (length root + 1) p))).
-
 Definition tdel_below (p : bytes) (t : tree) : tree := filter (fun kv => negb (below p (fst kv))) t.
-
-Definition cls_isdir (c : evclass) : bool :=
-  match c with DirCreated | DirDeleted | DirModified | DirMoved => true | _ => false end.
 
 Section Replay.
   Variables (recursive : bool) (root : bytes).
+  Let ins := in_scope recursive root.
 
-  Definition tput (k : bytes) (v : bool) (t : tree) : tree :=
-    if in_scope recursive root k then aset beqb k v t else t.
+  (* if in_scope(run, k): tree[k] = v *)
+  Definition tput (k : bytes) (v : bool) (t : tree) : tree := if ins k then aset beqb k v t else t.
+
+  (* for k in below(dest): del; moved = {k: tree[k] for k in below(src)}; del them; tree[dest + k[len(src):]] = v *)
+  Definition tmove (src dest : bytes) (t : tree) : tree :=
+    let t1 := tdel_below dest t in
+    let moved := filter (fun kv => below src (fst kv)) t1 in
+    let t2 := tdel_below src t1 in
+    fold_left (fun acc kv => tput (dest ++ skipn (length src) (fst kv)) (snd kv) acc) moved t2.
 
   Definition replay1 (t : tree) (e : nevent) : tree :=
     let isdir := cls_isdir (ev_cls e) in
-    match ev_cls e with
-    | FileCreated | DirCreated => tput (ev_src e) isdir t          (* also the synthetic created events *)
-    | FileDeleted | DirDeleted => tdel_below (ev_src e) t
-    | FileMoved | DirMoved =>
-      if ev_synth e then t                                          (* carried by the parent's move *)
-      else match ev_src e, ev_dest e with
-           | [], _ => tput (ev_dest e) isdir t                      (* full emitter: arrival from outside *)
-           | _, [] => tdel_below (ev_src e) t                       (* full emitter: departure *)
-           | _, _ =>
-             let t1 := tdel_below (ev_dest e) t in
-             let moved := filter (fun kv => below (ev_src e) (fst kv)) t1 in
-             let t2 := tdel_below (ev_src e) t1 in
-             fold_left (fun acc kv => tput (ev_dest e ++ skipn (length (ev_src e)) (fst kv)) (snd kv) acc) moved t2
-           end
-    | _ => t                                                        (* modified / opened / closed *)
+    match cls_what (ev_cls e) with
+    | WCreated => tput (ev_src e) isdir t                         (* also the synthetic created events *)
+    | WDeleted => tdel_below (ev_src e) t
+    | WMoved =>                                                   (* synthetic or not *)
+      match ev_src e, ev_dest e with
+      | [], _ => tput (ev_dest e) isdir t                         (* full emitter: arrival from outside *)
+      | _, [] => tdel_below (ev_src e) t                          (* full emitter: departure *)
+      | _, _ => match alookup beqb (ev_src e) t with
+                | None => tput (ev_dest e) isdir t                (* source unknown: the destination exists now *)
+                | Some _ => tmove (ev_src e) (ev_dest e) t
+                end
+      end
+    | _ => t                                                      (* modified / opened / closed *)
     end.
 
   Definition replay (t0 : tree) (evs : list nevent) : tree := fold_left replay1 evs t0.
 
-  (* scope_listing: the entries below the root (non-recursive: the direct children) *)
+  (* scope_listing *)
   Definition tree_of (w : world) : tree :=
-    map (fun e => (f_path e, f_dir e)) (filter (fun e => in_scope recursive root (f_path e)) (w_fs w)).
+    map (fun e => (f_path e, f_dir e)) (filter (fun e => ins (f_path e)) (w_fs w)).
+
+  (* ---------------------------------------------------------------- pointwise semantics *)
+  Definition pt := bytes -> option bool.
+  Definition fput (k : bytes) (v : bool) (f : pt) : pt := fun x => if ins k && beqb x k then Some v else f x.
+  Definition fdel (p : bytes) (f : pt) : pt := fun x => if below p x then None else f x.
+  Definition fmove (src dest : bytes) (f : pt) : pt := fun x =>
+    let f1 := fdel dest f in
+    if below dest x && ins x then
+      match f1 (src ++ skipn (length dest) x) with Some v => Some v | None => None end
+    else fdel src f1 x.
+
+  Definition freplay1 (f : pt) (e : nevent) : pt :=
+    let isdir := cls_isdir (ev_cls e) in
+    match cls_what (ev_cls e) with
+    | WCreated => fput (ev_src e) isdir f
+    | WDeleted => fdel (ev_src e) f
+    | WMoved =>
+      match ev_src e, ev_dest e with
+      | [], _ => fput (ev_dest e) isdir f
+      | _, [] => fdel (ev_src e) f
+      | _, _ => match f (ev_src e) with
+                | None => fput (ev_dest e) isdir f
+                | Some _ => fmove (ev_src e) (ev_dest e) f
+                end
+      end
+    | _ => f
+    end.
+
+  Definition look (t : tree) : pt := fun x => alookup beqb x t.
+  Definition peq (f g : pt) : Prop := forall x, f x = g x.
+
+  Lemma look_aset k v t x : look (aset beqb k v t) x = if beqb x k then Some v else look t x.
+  Proof.
+    unfold look. destruct (beqb x k) eqn:E.
+    - apply beqb_eq in E. subst. apply tset_eq.
+    - apply beqb_neq in E. now apply tset_neq.
+  Qed.
+
+  Lemma look_filter_key (g : bytes -> bool) t x :
+    look (filter (fun kv => g (fst kv)) t) x = if g x then look t x else None.
+  Proof.
+    unfold look. induction t as [|[k v] t IH]; cbn [filter fst alookup]; [now destruct (g x)|].
+    destruct (g k) eqn:Egk; cbn [alookup]; destruct (beqb x k) eqn:E.
+    - apply beqb_eq in E. subst. now rewrite Egk.
+    - exact IH.
+    - apply beqb_eq in E. subst. rewrite Egk in *. exact IH.
+    - exact IH.
+  Qed.
+
+  Lemma look_tdel p t x : look (tdel_below p t) x = fdel p (look t) x.
+  Proof.
+    unfold tdel_below, fdel. rewrite (look_filter_key (fun k => negb (below p k))). now destruct (below p x).
+  Qed.
+
+  Lemma look_tput k v t x : look (tput k v t) x = fput k v (look t) x.
+  Proof. unfold tput, fput. destruct (ins k); [apply look_aset | reflexivity]. Qed.
+
+  Lemma nodup_aset k (v : bool) t : NoDup (map fst t) -> NoDup (map fst (aset beqb k v t)).
+  Proof.
+    induction t as [|[a b] t IH]; cbn; intros H; [repeat constructor; intros []|].
+    inversion H; subst. destruct (beqb k a) eqn:E; cbn; [constructor; assumption|].
+    constructor; [|now apply IH]. intros Hin. apply H2.
+    clear -Hin E. induction t as [|[c d] t IH]; cbn in *.
+    - destruct Hin as [->|[]]. now rewrite beqb_refl in E.
+    - destruct (beqb k c); cbn in Hin; [exact Hin|]. destruct Hin as [->|Hin]; [now left | right; now apply IH].
+  Qed.
+
+  Lemma nodup_tput k v t : NoDup (map fst t) -> NoDup (map fst (tput k v t)).
+  Proof. unfold tput. destruct (ins k); [apply nodup_aset | auto]. Qed.
+
+  Lemma nodup_tdel p t : NoDup (map fst t) -> NoDup (map fst (tdel_below p t)).
+  Proof. apply NoDup_map_filter. Qed.
+
+  Lemma look_in k v t : NoDup (map fst t) -> In (k, v) t -> look t k = Some v.
+  Proof.
+    unfold look. induction t as [|[a b] t IH]; cbn; intros Hnd Hin; [contradiction|]. inversion Hnd; subst.
+    destruct Hin as [E|Hin].
+    - inversion E; subst. now rewrite beqb_refl.
+    - destruct (beqb k a) eqn:E; [|now apply IH]. apply beqb_eq in E. subst. exfalso. apply H1.
+      change a with (fst (a, v)). now apply in_map.
+  Qed.
+
+  Lemma below_split src k : below src k = true -> k = src ++ skipn (length src) k /\
+    (skipn (length src) k = [] \/ exists r, skipn (length src) k = sep :: r).
+  Proof.
+    unfold below. intros H. apply orb_true_iff in H as [H|H].
+    - apply beqb_eq in H. subst. rewrite skipn_all. rewrite app_nil_r. auto.
+    - apply under_spec in H as [r ->]. rewrite skipn_app_length. split; [reflexivity | right; eauto].
+  Qed.
+
+  Lemma below_app p s : (s = [] \/ exists r, s = sep :: r) -> below p (p ++ s) = true.
+  Proof.
+    unfold below. intros [->|[r ->]]; [now rewrite app_nil_r, beqb_refl | now rewrite under_app, orb_true_r].
+  Qed.
+
+  Section Move.
+    Variables src dest : bytes.
+    Definition nk (k : bytes) : bytes := dest ++ skipn (length src) k.
+    Let step := fun (acc : tree) (kv : bytes * bool) => tput (nk (fst kv)) (snd kv) acc.
+
+    Lemma nk_inj a b : below src a = true -> below src b = true -> nk a = nk b -> a = b.
+    Proof.
+      intros Ha Hb E. apply below_split in Ha as [Ea _]. apply below_split in Hb as [Eb _].
+      unfold nk in E. apply app_inv_head in E. congruence.
+    Qed.
+
+    Lemma fold_put_look m : forall acc, NoDup (map fst m) -> (forall kv, In kv m -> below src (fst kv) = true) ->
+      forall x, look (fold_left step m acc) x =
+                match find (fun kv => beqb x (nk (fst kv))) m with
+                | Some kv => if ins x then Some (snd kv) else look acc x
+                | None => look acc x
+                end.
+    Proof.
+      induction m as [|[k v] m IH]; intros acc Hnd Hb x; [reflexivity|].
+      inversion Hnd; subst. cbn [fold_left find fst]. rewrite IH; [|assumption | intros; apply Hb; now right].
+      unfold step. cbn [fst snd]. rewrite !look_tput. unfold fput.
+      destruct (beqb x (nk k)) eqn:E.
+      - apply beqb_eq in E. subst x. rewrite andb_true_r.
+        destruct (find (fun kv => beqb (nk k) (nk (fst kv))) m) as [kv|] eqn:Ef; [|reflexivity].
+        exfalso. apply find_some in Ef as [Hin Hf]. apply beqb_eq in Hf.
+        apply nk_inj in Hf; [|apply (Hb (k, v)); now left | apply Hb; now right].
+        apply H1. cbn in Hf. rewrite Hf. now apply in_map.
+      - rewrite andb_false_r. reflexivity.
+    Qed.
+
+    Lemma nodup_fold m : forall acc, NoDup (map fst acc) -> NoDup (map fst (fold_left step m acc)).
+    Proof. induction m as [|kv m IH]; intros acc H; [exact H|]. cbn. apply IH. now apply nodup_tput. Qed.
+
+    Lemma look_tmove t : NoDup (map fst t) -> forall x, look (tmove src dest t) x = fmove src dest (look t) x.
+    Proof.
+      intros Hnd x. unfold tmove. set (t1 := tdel_below dest t).
+      assert (Hnd1 : NoDup (map fst t1)) by now apply nodup_tdel.
+      set (moved := filter (fun kv => below src (fst kv)) t1).
+      assert (Hndm : NoDup (map fst moved)) by now apply NoDup_map_filter.
+      assert (Hbm : forall kv, In kv moved -> below src (fst kv) = true) by (intros kv H; now apply filter_In in H).
+      fold step. rewrite (fold_put_look moved _ Hndm Hbm).
+      unfold fmove. set (kx := src ++ skipn (length dest) x).
+      assert (L1 : forall y, look t1 y = fdel dest (look t) y) by (intros; apply look_tdel).
+      assert (L2 : look (tdel_below src t1) x = fdel src (fdel dest (look t)) x).
+      { rewrite look_tdel. unfold fdel. destruct (below src x); [reflexivity | rewrite L1; reflexivity]. }
+      destruct (find (fun kv => beqb x (nk (fst kv))) moved) as [[k v]|] eqn:Ef.
+      - apply find_some in Ef as [Hin Hf]. cbn [fst snd] in *. apply beqb_eq in Hf.
+        apply filter_In in Hin as [Hin1 Hbk]. cbn [fst] in Hbk.
+        destruct (below_split _ _ Hbk) as [Ek Hs].
+        assert (Hbx : below dest x = true) by (rewrite Hf; unfold nk; now apply below_app).
+        assert (Ekx : kx = k).
+        { unfold kx. rewrite Hf. unfold nk. rewrite skipn_app_length. now symmetry. }
+        rewrite Hbx. cbn [andb]. destruct (ins x); [|exact L2].
+        rewrite <- L1, Ekx, (look_in k v t1 Hnd1 Hin1). reflexivity.
+      - rewrite L2. destruct (below dest x && ins x) eqn:Eb; [|reflexivity].
+        apply andb_true_iff in Eb as [Hbx Hix].
+        assert (Hd : fdel src (fdel dest (look t)) x = None).
+        { unfold fdel. rewrite Hbx. now destruct (below src x). }
+        rewrite Hd. rewrite <- L1. destruct (look t1 kx) as [v|] eqn:El; [|reflexivity]. exfalso.
+        destruct (below_split _ _ Hbx) as [Ex Hs].
+        assert (Hbk : below src kx = true) by (unfold kx; now apply below_app).
+        assert (Hin : In (kx, v) moved).
+        { apply filter_In. split; [|exact Hbk]. apply (alookup_in beqb beqb_eq). exact El. }
+        rewrite find_none_iff in Ef. specialize (Ef _ Hin). cbn [fst] in Ef.
+        unfold nk, kx in Ef. rewrite skipn_app_length, <- Ex, beqb_refl in Ef. discriminate.
+    Qed.
+  End Move.
+
+  Lemma replay1_sem t e : NoDup (map fst t) -> forall x, look (replay1 t e) x = freplay1 (look t) e x.
+  Proof.
+    intros Hnd x. unfold replay1, freplay1. destruct (cls_what (ev_cls e)); try reflexivity.
+    - apply look_tput.
+    - apply look_tdel.
+    - destruct (ev_src e) as [|c s] eqn:Es; [apply look_tput|].
+      destruct (ev_dest e) as [|c' d] eqn:Ed; [apply look_tdel|].
+      fold (look t (c :: s)). destruct (look t (c :: s)); [now apply look_tmove | apply look_tput].
+  Qed.
+
+  Lemma replay1_nodup t e : NoDup (map fst t) -> NoDup (map fst (replay1 t e)).
+  Proof.
+    intros Hnd. unfold replay1. destruct (cls_what (ev_cls e)); try assumption.
+    - now apply nodup_tput.
+    - now apply nodup_tdel.
+    - destruct (ev_src e) as [|c s]; [now apply nodup_tput|]. destruct (ev_dest e) as [|c' d]; [now apply nodup_tdel|].
+      destruct (alookup beqb _ t); [|now apply nodup_tput].
+      unfold tmove. apply (nodup_fold (c :: s) (c' :: d)). now apply nodup_tdel, nodup_tdel.
+  Qed.
+
+  Lemma freplay1_ext f g e : peq f g -> peq (freplay1 f e) (freplay1 g e).
+  Proof.
+    intros H x. unfold freplay1. destruct (cls_what (ev_cls e)); try apply H.
+    - unfold fput. now rewrite H.
+    - unfold fdel. now rewrite H.
+    - destruct (ev_src e); [unfold fput; now rewrite H|]. destruct (ev_dest e); [unfold fdel; now rewrite H|].
+      rewrite H. destruct (g _); [|unfold fput; now rewrite H].
+      unfold fmove, fdel. now rewrite !H.
+  Qed.
+
+  Lemma replay_nodup evs : forall t, NoDup (map fst t) -> NoDup (map fst (replay t evs)).
+  Proof. induction evs as [|e evs IH]; intros t H; [exact H|]. cbn. apply IH. now apply replay1_nodup. Qed.
+
+  (* a stream all of whose events leave the lookup function g unchanged *)
+  Lemma replay_fix g evs : (forall e, In e evs -> peq (freplay1 g e) g) ->
+    forall t, NoDup (map fst t) -> peq (look t) g -> peq (look (replay t evs)) g.
+  Proof.
+    induction evs as [|e evs IH]; intros Hfix t Hnd Hg; [exact Hg|]. cbn [replay fold_left].
+    apply IH; [intros; apply Hfix; now right | now apply replay1_nodup|].
+    intros x. rewrite (replay1_sem t e Hnd). rewrite (freplay1_ext _ _ e Hg). apply Hfix. now left.
+  Qed.
 End Replay.
 
-Definition tree_eq (a b : tree) : Prop := forall p, alookup beqb p a = alookup beqb p b.
+(* ================================================================== the real tree as a lookup function *)
+Definition tl (recursive : bool) (root : bytes) (w : world) : pt :=
+  fun x => if in_scope recursive root x then option_map f_dir (flookup x (w_fs w)) else None.
+
+Lemma look_tree_of recursive root w x : look (tree_of recursive root w) x = tl recursive root w x.
+Proof.
+  unfold look, tree_of, tl. induction (w_fs w) as [|e t IH]; cbn [filter map alookup flookup].
+  - now destruct (in_scope recursive root x).
+  - destruct (in_scope recursive root (f_path e)) eqn:Ee; cbn [map alookup]; destruct (beqb x (f_path e)) eqn:E.
+    + apply beqb_eq in E. subst. now rewrite Ee.
+    + exact IH.
+    + apply beqb_eq in E. subst. rewrite Ee in *. exact IH.
+    + exact IH.
+Qed.
+
+Lemma nodup_tree_of recursive root w : wf_fs w -> NoDup (map fst (tree_of recursive root w)).
+Proof.
+  intros W. unfold tree_of. rewrite map_map. cbn [fst]. apply NoDup_map_filter, W.
+Qed.
+
+(* the replayed tree t stands for the world w *)
+Definition TInv (recursive : bool) (root : bytes) (t : tree) (w : world) : Prop :=
+  NoDup (map fst t) /\ peq (look t) (tl recursive root w).
+
+Lemma TInv_tree_eq recursive root t w : TInv recursive root t w ->
+  forall x, alookup beqb x t = alookup beqb x (tree_of recursive root w).
+Proof. intros [_ H] x. fold (look t x). rewrite H. symmetry. apply look_tree_of. Qed.
+
+Lemma TInv_init recursive root w : wf_fs w -> TInv recursive root (tree_of recursive root w) w.
+Proof. intros W. split; [now apply nodup_tree_of | intros x; apply look_tree_of]. Qed.
+
+(* ================================================================== collapse *)
+Lemma evclass_eqb_eq a b : evclass_eqb a b = true -> a = b.
+Proof. destruct a, b; cbn; congruence. Qed.
+
+Lemma nevent_eqb_eq a b : nevent_eqb a b = true -> a = b.
+Proof.
+  unfold nevent_eqb. rewrite !andb_true_iff. intros [[[H1 H2] H3] H4].
+  apply evclass_eqb_eq in H1. apply beqb_eq in H2, H3. apply Bool.eqb_prop in H4.
+  destruct a, b; cbn in *; congruence.
+Qed.
+
+Lemma collapse_in e l : In e l <-> In e (collapse l).
+Proof.
+  induction l as [|a l IH]; [reflexivity|]. cbn [collapse]. destruct l as [|b l'].
+  - reflexivity.
+  - destruct (nevent_eqb a b) eqn:E.
+    + apply nevent_eqb_eq in E. subst b. rewrite <- IH. cbn. tauto.
+    + cbn [In] in *. rewrite <- IH. tauto.
+Qed.
+
+Lemma collapse_head a c l : collapse l = a :: c -> exists rest, l = a :: rest.
+Proof.
+  induction l as [|a0 l IH]; [discriminate|]. cbn [collapse]. destruct l as [|b l'].
+  - intros H. inversion H. eauto.
+  - destruct (nevent_eqb a0 b) eqn:E.
+    + apply nevent_eqb_eq in E. subst b. intros H. destruct (IH H) as [rest Hr]. inversion Hr; subst. eauto.
+    + intros H. inversion H. eauto.
+Qed.
+
+Lemma collapse_nil l : collapse l = [] -> l = [].
+Proof.
+  induction l as [|a l IH]; [reflexivity|]. cbn [collapse]. destruct l as [|b l']; [discriminate|].
+  destruct (nevent_eqb a b); [|discriminate]. intros H. apply IH in H. discriminate.
+Qed.
+
+(* what a contract does to the tree: its first event turns g into g', every event leaves g' alone *)
+Definition ctr_ok (recursive : bool) (root : bytes) (g g' : pt) (ctr : list nevent) : Prop :=
+  match ctr with [] => peq g g' | e0 :: _ => peq (freplay1 recursive root g e0) g' end /\
+  (forall e, In e ctr -> peq (freplay1 recursive root g' e) g').
+
+Lemma replay_contract recursive root evs ctr t g g' :
+  collapse evs = collapse ctr -> ctr_ok recursive root g g' ctr ->
+  NoDup (map fst t) -> peq (look t) g ->
+  NoDup (map fst (replay recursive root t evs)) /\ peq (look (replay recursive root t evs)) g'.
+Proof.
+  intros Hc [H0 Hfix] Hnd Hg. split; [now apply replay_nodup|].
+  destruct ctr as [|e0 ctr'].
+  - cbn in Hc. apply collapse_nil in Hc. subst evs. intros x. now rewrite Hg.
+  - destruct (collapse (e0 :: ctr')) as [|a c] eqn:Ec; [apply collapse_nil in Ec; discriminate|].
+    destruct (collapse_head _ _ _ Ec) as [r1 E1]. inversion E1; subst a r1.
+    destruct (collapse_head _ _ _ Hc) as [rest ->].
+    cbn [replay fold_left]. apply (replay_fix recursive root g').
+    + intros e He. apply Hfix. apply (proj2 (collapse_in e (e0 :: ctr'))). rewrite Ec, <- Hc.
+      apply (proj1 (collapse_in _ _)). now right.
+    + now apply replay1_nodup.
+    + intros x. rewrite (replay1_sem _ _ t e0 Hnd). rewrite (freplay1_ext _ _ _ _ e0 Hg). apply H0.
+Qed.
+
+(* ================================================================== what each contract does to the real tree *)
+Lemma flookup_app x t n :
+  flookup x (t ++ [n]) = match flookup x t with Some e => Some e | None => if beqb x (f_path n) then Some n else None end.
+Proof.
+  induction t as [|e t IH]; cbn [app flookup]; [reflexivity|]. destruct (beqb x (f_path e)); [reflexivity | exact IH].
+Qed.
+
+Lemma flookup_fremove x p t : flookup x (fremove p t) = if beqb x p then None else flookup x t.
+Proof.
+  unfold fremove. induction t as [|e t IH]; cbn [filter flookup]; [now destruct (beqb x p)|].
+  destruct (beqb p (f_path e)) eqn:Ep; cbn [negb flookup].
+  - apply beqb_eq in Ep. subst p. rewrite IH. now destruct (beqb x (f_path e)).
+  - destruct (beqb x (f_path e)) eqn:E; [|exact IH]. apply beqb_eq in E. subst x.
+    rewrite ContractProofs.beqb_sym, Ep. reflexivity.
+Qed.
+
+Lemma nothing_below_entry w ep : wf_fs w -> In ep (w_fs w) ->
+  (f_dir ep = false \/ has_children (f_path ep) (w_fs w) = false) ->
+  forall e, In e (w_fs w) -> under (f_path ep) (f_path e) = false.
+Proof.
+  intros W Hep Hleaf e He. destruct (under (f_path ep) (f_path e)) eqn:E; [|reflexivity]. exfalso.
+  destruct Hleaf as [Hf|Hch].
+  - destruct (chain w e (f_path ep) ep W He Hep E (or_introl eq_refl)) as (x & Hx & Ex & Dx).
+    assert (x = ep) by (apply (path_inj (w_fs w)); [apply W| | |]; assumption). congruence.
+  - destruct (chain_child_gen w W _ e (le_n _) He (f_path ep) ep Hep E (or_introl eq_refl)) as (c & Hc1 & Hc2 & _).
+    assert (Hf := CoverProofs.has_children_false _ _ Hch _ Hc1).
+    apply is_child_np in Hc2; [congruence | now apply (wf_np w W)].
+Qed.
+
+Section Sem.
+  Variables (recursive full : bool) (root : bytes).
+  Let ins := in_scope recursive root.
+  Let fr := freplay1 recursive root.
+  Let tlw := tl recursive root.
+
+  Lemma fput_id k v (g : pt) : (ins k = true -> g k = Some v) -> peq (fput recursive root k v g) g.
+  Proof.
+    intros H x. unfold fput. fold ins. destruct (ins k) eqn:E; [|reflexivity]. cbn [andb].
+    destruct (beqb x k) eqn:Ex; [|reflexivity]. apply beqb_eq in Ex. subst. symmetry. now apply H.
+  Qed.
+
+  Lemma fdel_id p (g : pt) : (forall x, below p x = true -> g x = None) -> peq (fdel p g) g.
+  Proof. intros H x. unfold fdel. destruct (below p x) eqn:E; [symmetry; now apply H | reflexivity]. Qed.
+
+  Lemma fr_neutral g c s d sy : match cls_what c with WCreated | WDeleted | WMoved => False | _ => True end ->
+    fr g {| ev_cls := c; ev_src := s; ev_dest := d; ev_synth := sy |} = g.
+  Proof. unfold fr, freplay1. cbn [ev_cls]. destruct (cls_what c); tauto. Qed.
+
+  Lemma fr_pm g p : fr g (parent_modified p) = g.
+  Proof. reflexivity. Qed.
+
+  Lemma tlw_ins w x : ins x = false -> tlw w x = None.
+  Proof. unfold tlw, tl. fold ins. now intros ->. Qed.
+
+  (* ---- Touch / Mkdir *)
+  Lemma tl_add w p d : flookup p (w_fs w) = None -> forall ino n x,
+    tlw {| w_fs := w_fs w ++ [{| f_path := p; f_ino := ino; f_dir := d |}]; w_next_ino := n |} x =
+    if beqb x p then (if ins p then Some d else None) else tlw w x.
+  Proof.
+    intros Hp ino n x. unfold tlw, tl. cbn [w_fs]. fold ins. rewrite flookup_app. cbn [f_path].
+    destruct (beqb x p) eqn:E.
+    - apply beqb_eq in E. subst x. rewrite Hp. now destruct (ins p).
+    - now destruct (flookup x (w_fs w)).
+  Qed.
+
+  Lemma ctr_add w p d c : flookup p (w_fs w) = None -> cls_what c = WCreated -> cls_isdir c = d ->
+    forall ino n rest,
+    (forall e, In e rest -> forall g, fr g e = g) ->
+    ctr_ok recursive root (tlw w)
+      (tlw {| w_fs := w_fs w ++ [{| f_path := p; f_ino := ino; f_dir := d |}]; w_next_ino := n |})
+      (if ins p then mk c p [] :: rest else []).
+  Proof.
+    intros Hp Hc Hd ino n rest Hrest. set (w' := {| w_fs := _; w_next_ino := n |}).
+    assert (Hg' : forall x, tlw w' x = if beqb x p then (if ins p then Some d else None) else tlw w x)
+      by (intros; now apply tl_add).
+    destruct (ins p) eqn:Ei.
+    - assert (H0 : peq (fr (tlw w) (mk c p [])) (tlw w')).
+      { intros x. unfold fr, freplay1, mk. cbn [ev_cls ev_src]. rewrite Hc, Hd. unfold fput. fold ins. rewrite Ei, Hg'.
+        cbn [andb]. reflexivity. }
+      split; [exact H0|]. intros e [<-|He]; [|intros x; now rewrite Hrest].
+      unfold fr, freplay1, mk. cbn [ev_cls ev_src]. rewrite Hc, Hd. apply fput_id. intros _. now rewrite Hg', beqb_refl.
+    - split; [|intros e []]. intros x. rewrite Hg'. destruct (beqb x p) eqn:E; [|reflexivity].
+      apply beqb_eq in E. subst. now apply tlw_ins.
+  Qed.
+
+  Lemma ctr_touch w p w' : apply_op w (Touch p) = Some w' ->
+    ctr_ok recursive root (tlw w) (tlw w') (contract recursive full root (w_fs w) (Touch p)).
+  Proof.
+    cbn [apply_op]. destruct (fisdir (dirname p) (w_fs w)); [|discriminate]. destruct (fexists p (w_fs w)) eqn:Ex; [discriminate|].
+    cbn. intros H. injection H as <-. unfold fexists in Ex. destruct (flookup p (w_fs w)) eqn:El; [discriminate|].
+    apply (ctr_add w p false FileCreated El eq_refl eq_refl).
+    intros e [<-|[<-|[<-|[<-|[]]]]] g; reflexivity.
+  Qed.
+
+  Lemma ctr_mkdir w p w' : apply_op w (Mkdir p) = Some w' ->
+    ctr_ok recursive root (tlw w) (tlw w') (contract recursive full root (w_fs w) (Mkdir p)).
+  Proof.
+    cbn [apply_op]. destruct (fisdir (dirname p) (w_fs w)); [|discriminate]. destruct (fexists p (w_fs w)) eqn:Ex; [discriminate|].
+    cbn. intros H. injection H as <-. unfold fexists in Ex. destruct (flookup p (w_fs w)) eqn:El; [discriminate|].
+    apply (ctr_add w p true DirCreated El eq_refl eq_refl).
+    intros e [<-|[]] g; reflexivity.
+  Qed.
+
+  (* ---- Write / Chmod: the tree does not change, no event of the contract is structural *)
+  Lemma ctr_neutral g ctr : (forall e, In e ctr -> forall h, fr h e = h) -> ctr_ok recursive root g g ctr.
+  Proof.
+    intros H. split; [|intros e He x; now rewrite H].
+    destruct ctr as [|e0 c]; [intros x; reflexivity|]. intros x. rewrite H; [reflexivity | now left].
+  Qed.
+
+  Lemma ctr_write w p w' : apply_op w (Write p) = Some w' ->
+    ctr_ok recursive root (tlw w) (tlw w') (contract recursive full root (w_fs w) (Write p)).
+  Proof.
+    cbn [apply_op]. destruct (flookup p (w_fs w)) as [e|]; [|discriminate]. destruct (f_dir e); [discriminate|].
+    intros H. injection H as <-. apply ctr_neutral. cbn [contract]. destruct (in_scope recursive root p); [|intros e0 []].
+    intros e0 [<-|[<-|[<-|[<-|[]]]]] h; reflexivity.
+  Qed.
+
+  Lemma ctr_chmod w p w' : apply_op w (Chmod p) = Some w' ->
+    ctr_ok recursive root (tlw w) (tlw w') (contract recursive full root (w_fs w) (Chmod p)).
+  Proof.
+    cbn [apply_op]. destruct (fexists p (w_fs w)); [|discriminate].
+    intros H. injection H as <-. apply ctr_neutral. cbn [contract]. destruct (in_scope recursive root p); [|intros e0 []].
+    intros e0 [<-|[]] h. destruct (fisdir p (w_fs w)); reflexivity.
+  Qed.
+
+  (* ---- Unlink / Rmdir: a leaf disappears *)
+  Lemma tl_remove w p n x : tlw {| w_fs := fremove p (w_fs w); w_next_ino := n |} x = if beqb x p then None else tlw w x.
+  Proof. unfold tlw, tl. cbn [w_fs]. rewrite flookup_fremove. now destruct (beqb x p), (in_scope recursive root x). Qed.
+
+  Lemma ctr_remove w p ep c rest n : wf_fs w -> flookup p (w_fs w) = Some ep ->
+    (f_dir ep = false \/ has_children p (w_fs w) = false) -> cls_what c = WDeleted ->
+    (forall e, In e rest -> forall g, fr g e = g) ->
+    ctr_ok recursive root (tlw w) (tlw {| w_fs := fremove p (w_fs w); w_next_ino := n |})
+           (if ins p then mk c p [] :: rest else []).
+  Proof.
+    intros W El Hleaf Hc Hrest. destruct (flookup_some _ _ _ El) as [Hep Eep].
+    assert (Hbelow : forall x, under p x = true -> tlw w x = None).
+    { intros x Hu. unfold tlw, tl. destruct (flookup x (w_fs w)) as [e|] eqn:Ex; [|now destruct (in_scope recursive root x)].
+      exfalso. apply flookup_some in Ex as [He Ee]. rewrite <- Eep in Hleaf.
+      assert (Hn := nothing_below_entry w ep W Hep Hleaf e He). rewrite Eep, Ee, Hu in Hn. discriminate. }
+    set (w' := {| w_fs := _; w_next_ino := n |}).
+    assert (Hg' : forall x, tlw w' x = if beqb x p then None else tlw w x) by (intros; apply tl_remove).
+    assert (Hdel : peq (fdel p (tlw w)) (tlw w')).
+    { intros x. rewrite Hg'. unfold fdel, below. destruct (beqb x p); [reflexivity|]. cbn [orb].
+      destruct (under p x) eqn:Eu; [symmetry; now apply Hbelow | reflexivity]. }
+    destruct (ins p) eqn:Ei.
+    - split.
+      + intros x. unfold fr, freplay1, mk. cbn [ev_cls ev_src]. rewrite Hc. apply Hdel.
+      + intros e [<-|He]; [|intros x; now rewrite Hrest].
+        unfold fr, freplay1, mk. cbn [ev_cls ev_src]. rewrite Hc. apply fdel_id. intros x Hb. rewrite Hg'.
+        unfold below in Hb. destruct (beqb x p); [reflexivity|]. cbn in Hb. now apply Hbelow.
+    - split; [|intros e []]. intros x. rewrite Hg'. destruct (beqb x p) eqn:E; [|reflexivity].
+      apply beqb_eq in E. subst. now apply tlw_ins.
+  Qed.
+
+  Lemma ctr_unlink w p w' : wf_fs w -> apply_op w (Unlink p) = Some w' ->
+    ctr_ok recursive root (tlw w) (tlw w') (contract recursive full root (w_fs w) (Unlink p)).
+  Proof.
+    intros W. cbn [apply_op]. destruct (flookup p (w_fs w)) as [ep|] eqn:El; [|discriminate].
+    destruct (f_dir ep) eqn:Dp; [discriminate|]. intros H. injection H as <-.
+    apply (ctr_remove w p ep FileDeleted [parent_modified p] _ W El (or_introl Dp) eq_refl).
+    intros e [<-|[]] g; reflexivity.
+  Qed.
+
+  Lemma ctr_rmdir w p w' : wf_fs w -> apply_op w (Rmdir p) = Some w' ->
+    ctr_ok recursive root (tlw w) (tlw w') (contract recursive full root (w_fs w) (Rmdir p)).
+  Proof.
+    intros W. cbn [apply_op]. destruct (flookup p (w_fs w)) as [ep|] eqn:El; [|discriminate].
+    destruct (f_dir ep); [|discriminate]. destruct (has_children p (w_fs w)) eqn:Hc; [discriminate|]. cbn.
+    intros H. injection H as <-.
+    apply (ctr_remove w p ep DirDeleted [parent_modified p] _ W El (or_intror Hc) eq_refl).
+    intros e [<-|[]] g; reflexivity.
+  Qed.
+End Sem.
+
+(* ================================================================== Rename: lookups in the renamed file system *)
+Lemma below_refl p : below p p = true.
+Proof. unfold below. now rewrite beqb_refl. Qed.
+
+Lemma below_disjoint p q s : p <> q -> under p q = false -> under q p = false ->
+  (s = [] \/ exists r, s = sep :: r) -> below q (p ++ s) = false.
+Proof.
+  intros Hne Hpq Hqp [->|[r ->]]; unfold below.
+  - rewrite app_nil_r. apply beqb_neq in Hne. now rewrite Hne, Hqp.
+  - rewrite under_disjoint by (try assumption; congruence). rewrite orb_false_r. apply beqb_neq. intros E.
+    rewrite <- E, under_app in Hpq. discriminate.
+Qed.
+
+Section Frename.
+  Variables (p q : bytes) (t1 : fs).
+  Hypothesis N1 : NoDup (map f_path t1).
+  Hypothesis N' : NoDup (map f_path (frename p q t1)).
+  Hypothesis Hq : ~ In q (map f_path t1).
+  Hypothesis Hbq : forall e, In e t1 -> under q (f_path e) = false.
+  Hypothesis Hne : p <> q.
+  Hypothesis Hpq : under p q = false.
+  Hypothesis Hqp : under q p = false.
+
+  Lemma rk_cases x : (x = p /\ rk p q x = q) \/ (exists s, x = p ++ sep :: s /\ rk p q x = q ++ sep :: s) \/
+                     (x <> p /\ under p x = false /\ rk p q x = x).
+  Proof.
+    destruct (bytes_eq_dec x p) as [->|Hx]; [left; split; [reflexivity | apply rk_self]|].
+    right. destruct (under p x) eqn:Eu.
+    - left. apply under_spec in Eu as [r ->]. exists r. split; [reflexivity | apply rk_under].
+    - right. repeat split; try assumption. now apply rk_other.
+  Qed.
+
+  Lemma in_paths e : In e t1 -> flookup (f_path e) t1 = Some e.
+  Proof. now apply flookup_in. Qed.
+
+  Lemma flookup_frename x :
+    flookup x (frename p q t1) =
+      if below q x then option_map (ren p q) (flookup (p ++ skipn (length q) x) t1)
+      else if below p x then None else flookup x t1.
+  Proof.
+    rewrite CoverProofs.frename_map in *.
+    assert (Hsrc : forall e' , flookup x (map (ren p q) t1) = Some e' -> exists e, In e t1 /\ e' = ren p q e /\ rk p q (f_path e) = x).
+    { intros e' H. apply flookup_some in H as [He' Ee']. apply in_map_iff in He' as (e & <- & He).
+      exists e. rewrite ren_path in Ee'. auto. }
+    destruct (below q x) eqn:Bq.
+    - destruct (below_split _ _ Bq) as [Ex Hs]. set (s := skipn (length q) x) in *.
+      destruct (flookup (p ++ s) t1) as [e|] eqn:El; cbn [option_map].
+      + destruct (flookup_some _ _ _ El) as [He Ee].
+        assert (Hp' : f_path (ren p q e) = x).
+        { rewrite ren_path, Ee, Ex. destruct Hs as [Hs|[r Hs]]; rewrite Hs.
+          - now rewrite !app_nil_r, rk_self.
+          - apply rk_under. }
+        rewrite <- Hp'. apply flookup_in; [exact N' | now apply in_map].
+      + destruct (flookup x (map (ren p q) t1)) as [e'|] eqn:El'; [|reflexivity]. exfalso.
+        destruct (Hsrc e' eq_refl) as (e & He & _ & Er).
+        apply CoverProofs.flookup_none in El. apply El.
+        destruct (rk_cases (f_path e)) as [[E1 E2]|[(s' & E1 & E2)|(E1 & E2 & E3)]]; rewrite ?E2, ?E3 in Er.
+        * assert (s = []) by (unfold s; rewrite <- Er; apply skipn_all). rewrite H, app_nil_r, <- E1. now apply in_map.
+        * assert (s = sep :: s') by (unfold s; rewrite <- Er; apply skipn_app_length). rewrite H, <- E1. now apply in_map.
+        * exfalso. unfold below in Bq. apply orb_true_iff in Bq as [Bq|Bq].
+          -- apply beqb_eq in Bq. apply Hq. rewrite <- Bq, <- Er. now apply in_map.
+          -- rewrite <- Er, Hbq in Bq by assumption. discriminate.
+    - assert (Hnq : forall e, In e t1 -> rk p q (f_path e) = x -> f_path e = x /\ f_path e <> p /\ under p (f_path e) = false).
+      { intros e He Er. destruct (rk_cases (f_path e)) as [[E1 E2]|[(s' & E1 & E2)|(E1 & E2 & E3)]]; rewrite ?E2, ?E3 in Er.
+        - rewrite <- Er, below_refl in Bq. discriminate.
+        - rewrite <- Er in Bq. unfold below in Bq. rewrite under_app, orb_true_r in Bq. discriminate.
+        - auto. }
+      destruct (below p x) eqn:Bp.
+      + destruct (flookup x (map (ren p q) t1)) as [e'|] eqn:El'; [|reflexivity]. exfalso.
+        destruct (Hsrc e' eq_refl) as (e & He & _ & Er). destruct (Hnq e He Er) as (E1 & E2 & E3).
+        unfold below in Bp. rewrite <- E1 in Bp. apply beqb_neq in E2. rewrite E2, E3 in Bp. discriminate.
+      + destruct (flookup x t1) as [e|] eqn:El.
+        * destruct (flookup_some _ _ _ El) as [He Ee].
+          assert (Hr : ren p q e = e).
+          { unfold ren. rewrite Ee. unfold below in Bp. apply orb_false_iff in Bp as [B1 B2]. now rewrite B1, B2. }
+          rewrite <- Ee. rewrite <- Hr at 2. rewrite <- Hr at 1. apply flookup_in; [exact N' | now apply in_map].
+        * destruct (flookup x (map (ren p q) t1)) as [e'|] eqn:El'; [|reflexivity]. exfalso.
+          destruct (Hsrc e' eq_refl) as (e & He & _ & Er). destruct (Hnq e He Er) as (E1 & _).
+          apply CoverProofs.flookup_none in El. apply El. rewrite <- E1. now apply in_map.
+  Qed.
+End Frename.
+
+(* the descendants listed by os.walk are entries of the file system, with their kinds *)
+Lemma desc_unfold rel ds fs :
+  desc rel (Node ds fs) = map (fun d : bytes * SubEvents.tree => (KDir, rel ++ [fst d])) ds ++
+                          map (fun f => (KFile, rel ++ [f])) fs ++
+                          flat_map (fun ns : bytes * SubEvents.tree => desc (rel ++ [fst ns]) (snd ns)) ds.
+Proof.
+  cbn [desc]. do 2 f_equal. induction ds as [|[n sub] ds IH]; [reflexivity|]. cbn [flat_map fst snd]. now rewrite IH.
+Qed.
+
+Lemma desc_content_sound w : wf_fs w -> forall fuel d base k rel,
+  In (k, rel) (desc base (content_fuel fuel (w_fs w) d)) ->
+  exists rel', rel = base ++ rel' /\ rel' <> [] /\
+    exists e, In e (w_fs w) /\ f_path e = d ++ relsuffix rel' /\ f_dir e = kdir k.
+Proof.
+  intros W. induction fuel as [|fuel IH]; intros d base k rel Hin; [cbn in Hin; contradiction|].
+  cbn [content_fuel] in Hin. rewrite desc_unfold in Hin.
+  assert (Hchild : forall c, In c (w_fs w) -> is_child d (f_path c) = true ->
+            f_path c = d ++ relsuffix [basename (f_path c)]).
+  { intros c Hc Hch. assert (Np := wf_np w W c Hc). apply is_child_np in Hch; [|exact Np].
+    rewrite relsuffix_one. rewrite <- Hch. now apply npath_parts. }
+  rewrite !in_app_iff in Hin. destruct Hin as [Hin|[Hin|Hin]].
+  - rewrite map_map in Hin. apply in_map_iff in Hin as (c & E & Hc). cbn [fst] in E. inversion E; subst k rel.
+    apply filter_In in Hc as [Hc Hf]. apply andb_true_iff in Hf as [Hch Hd].
+    exists [basename (f_path c)]. split; [reflexivity|]. split; [discriminate|]. exists c. auto.
+  - rewrite map_map in Hin. apply in_map_iff in Hin as (c & E & Hc). inversion E; subst k rel.
+    apply filter_In in Hc as [Hc Hf]. apply andb_true_iff in Hf as [Hch Hd]. apply negb_true_iff in Hd.
+    exists [basename (f_path c)]. split; [reflexivity|]. split; [discriminate|]. exists c. auto.
+  - apply in_flat_map in Hin as (ns & Hns & Hin). apply in_map_iff in Hns as (c & <- & Hc). cbn [fst snd] in Hin.
+    apply filter_In in Hc as [Hc Hf]. apply andb_true_iff in Hf as [Hch Hd].
+    destruct (IH _ _ _ _ Hin) as (rel' & -> & Hne & e & He & Ee & De).
+    exists (basename (f_path c) :: rel'). split; [now rewrite <- app_assoc|]. split; [discriminate|].
+    exists e. split; [exact He|]. split; [|exact De].
+    rewrite Ee, (Hchild c Hc Hch) at 1. change (basename (f_path c) :: rel') with ([basename (f_path c)] ++ rel').
+    now rewrite relsuffix_app, app_assoc.
+Qed.
+
+Definition fdl (t : fs) (y : bytes) : option bool := option_map f_dir (flookup y t).
+
+(* everything the replay lemmas need to know about an applicable Rename *)
+Lemma rename_look w p q w' : wf_fs w -> npath p -> npath q -> apply_op w (Rename p q) = Some w' ->
+  exists ep, flookup p (w_fs w) = Some ep /\ p <> q /\ under p q = false /\ under q p = false /\
+    (forall e, In e (w_fs w) -> under q (f_path e) = false) /\
+    (fisdir q (w_fs w) = true -> f_dir ep = true) /\
+    forall x, fdl (w_fs w') x =
+      let F := fun y => if beqb y q then None else fdl (w_fs w) y in
+      if below q x then F (p ++ skipn (length q) x) else if below p x then None else F x.
+Proof.
+  intros W Np Nq Ha. assert (W' : wf_fs w') by exact (wf_apply_op w (Rename p q) w' W (conj Np Nq) Ha).
+  destruct (rename_inv w p q w' W Np Nq Ha) as (ep & t1 & Elp & Hne & Hupq & Edq & -> & Hbelow & Hq1).
+  destruct (flookup_some _ _ _ Elp) as [Hep Eep].
+  assert (Hqp : under q p = false) by (rewrite <- Eep; now apply Hbelow).
+  exists ep. repeat split; try assumption.
+  { unfold fisdir. destruct Hq1 as [[-> _]|(v & -> & _ & [[_ Hv]|(Hd & _)])]; [discriminate | congruence | auto]. }
+  assert (Ht1 : forall y, flookup y t1 = if beqb y q then None else flookup y (w_fs w)).
+  { intros y. destruct Hq1 as [[Hn ->]|(v & _ & -> & _)]; [|apply flookup_fremove].
+    destruct (beqb y q) eqn:E; [|reflexivity]. apply beqb_eq in E. now subst. }
+  assert (N1 : NoDup (map f_path t1)).
+  { destruct Hq1 as [[_ ->]|(v & _ & -> & _)]; [apply W | apply NoDup_map_filter, W]. }
+  assert (Hq : ~ In q (map f_path t1)).
+  { apply CoverProofs.flookup_none. rewrite Ht1. now rewrite beqb_refl. }
+  assert (Hbq : forall e, In e t1 -> under q (f_path e) = false).
+  { intros e He. apply Hbelow. destruct Hq1 as [[_ ->]|(v & _ & -> & _)]; [assumption | now apply fremove_in in He]. }
+  intros x. unfold fdl. cbn [w_fs]. rewrite (flookup_frename p q t1 (wf_paths _ W') Hq Hbq).
+  cbv zeta. destruct (below q x).
+  - rewrite Ht1. destruct (beqb (p ++ skipn (length q) x) q); [reflexivity|].
+    destruct (flookup (p ++ skipn (length q) x) (w_fs w)) as [e|]; [|reflexivity]. cbn. now rewrite ren_dir.
+  - destruct (below p x); [reflexivity|]. rewrite Ht1. now destruct (beqb x q).
+Qed.
+
+Section RenSem.
+  Variables (recursive full : bool) (root : bytes).
+  Let ins := in_scope recursive root.
+  Let fr := freplay1 recursive root.
+  Let tlw := tl recursive root.
+
+  Lemma tlw_fdl w x : tlw w x = if ins x then fdl (w_fs w) x else None.
+  Proof. reflexivity. Qed.
+
+  Lemma cls_what_moved d : cls_what (moved_cls d) = WMoved.   Proof. now destruct d. Qed.
+  Lemma cls_what_deleted d : cls_what (deleted_cls d) = WDeleted. Proof. now destruct d. Qed.
+  Lemma cls_what_created d : cls_what (created_cls d) = WCreated. Proof. now destruct d. Qed.
+
+  Lemma fr_moved g c s d sy : cls_what c = WMoved -> s <> [] -> d <> [] ->
+    fr g {| ev_cls := c; ev_src := s; ev_dest := d; ev_synth := sy |} =
+    match g s with None => fput recursive root d (cls_isdir c) g | Some _ => fmove recursive root s d g end.
+  Proof.
+    intros Hc Hs Hd. unfold fr, freplay1. cbn [ev_cls ev_src ev_dest]. rewrite Hc.
+    destruct s; [contradiction|]. destruct d; [contradiction|]. reflexivity.
+  Qed.
+
+  (* ---- a file renamed: inside, out (= deleted), in (= created), neither *)
+  Lemma ctr_rename_file w p q w' : wf_fs w -> npath p -> npath q -> apply_op w (Rename p q) = Some w' ->
+    fisdir p (w_fs w) = false ->
+    ctr_ok recursive root (tlw w) (tlw w') (contract recursive full root (w_fs w) (Rename p q)).
+  Proof.
+    intros W Np Nq Ha Fp.
+    destruct (rename_look w p q w' W Np Nq Ha) as (ep & Elp & Hne & Hpq & Hqp & Hbelow & Hqd & Hl).
+    destruct (flookup_some _ _ _ Elp) as [Hep Eep].
+    assert (Dep : f_dir ep = false) by (unfold fisdir in Fp; now rewrite Elp in Fp).
+    assert (Fq : fisdir q (w_fs w) = false) by (destruct (fisdir q (w_fs w)); [specialize (Hqd eq_refl); congruence | reflexivity]).
+    assert (Gp := npath_gpath _ Np). assert (Gq := npath_gpath _ Nq).
+    assert (Hup : forall x, under p x = true -> fdl (w_fs w) x = None).
+    { intros x Hu. unfold fdl. destruct (flookup x (w_fs w)) as [e|] eqn:Ex; [|reflexivity]. exfalso.
+      apply flookup_some in Ex as [He Ee].
+      assert (Hn := nothing_below_entry w ep W Hep (or_introl Dep) e He). rewrite Eep, Ee, Hu in Hn. discriminate. }
+    assert (Huq : forall x, under q x = true -> fdl (w_fs w) x = None).
+    { intros x Hu. unfold fdl. destruct (flookup x (w_fs w)) as [e|] eqn:Ex; [|reflexivity]. exfalso.
+      apply flookup_some in Ex as [He Ee]. specialize (Hbelow e He). rewrite Ee, Hu in Hbelow. discriminate. }
+    assert (Bpq : beqb p q = false) by now apply beqb_neq.
+    assert (Bqp : beqb q p = false) by (apply beqb_neq; congruence).
+    (* the renamed tree, pointwise *)
+    assert (Hg' : forall x, fdl (w_fs w') x =
+              if beqb x q then Some false else if beqb x p then None else fdl (w_fs w) x).
+    { intros x. rewrite Hl. cbv zeta. unfold below.
+      destruct (beqb x q) eqn:E1.
+      - apply beqb_eq in E1. subst x. cbn [orb]. rewrite skipn_all, app_nil_r, Bpq. unfold fdl. rewrite Elp. cbn [option_map]. now rewrite Dep.
+      - cbn [orb]. destruct (under q x) eqn:E2.
+        + apply under_spec in E2 as [r ->]. rewrite skipn_app_length.
+          assert (beqb (p ++ sep :: r) q = false).
+          { apply beqb_neq. intros E. rewrite <- E, under_app in Hpq. discriminate. }
+          rewrite H, Hup by apply under_app. destruct (beqb (q ++ sep :: r) p) eqn:E3.
+          * apply beqb_eq in E3. rewrite <- E3, under_app in Hqp. discriminate.
+          * symmetry. apply Huq, under_app.
+        + destruct (beqb x p) eqn:E3; [reflexivity|]. cbn [orb].
+          destruct (under p x) eqn:E4; [symmetry; now apply Hup | reflexivity]. }
+    cbn [contract]. rewrite Fp, Fq. cbn [andb]. rewrite andb_false_r. cbn [app].
+    fold ins. destruct (ins p) eqn:Ip, (ins q) eqn:Iq; cbn [andb].
+    - (* inside *)
+      split.
+      + intros x. cbn [moved_cls]. unfold mk. rewrite (fr_moved _ FileMoved p q false eq_refl (proj1 Gp) (proj1 Gq)).
+        rewrite (tlw_fdl w p). fold ins. rewrite Ip. unfold fdl at 1. rewrite Elp. cbn [option_map].
+        unfold fmove, fdel. fold ins. rewrite !tlw_fdl, Hg'. unfold below.
+        destruct (beqb x q) eqn:E1.
+        * apply beqb_eq in E1. subst x. cbn [orb]. rewrite Iq. cbn [andb]. rewrite skipn_all, app_nil_r.
+          rewrite Bpq, Hqp. cbn [orb]. rewrite ?tlw_fdl. fold ins. rewrite Ip. unfold fdl. rewrite Elp. cbn [option_map]. now rewrite Dep.
+        * cbn [orb]. destruct (under q x) eqn:E2.
+          -- apply under_spec in E2 as [r ->]. rewrite skipn_app_length.
+             assert (E3 : beqb (q ++ sep :: r) p = false).
+             { apply beqb_neq. intros E. rewrite <- E, under_app in Hqp. discriminate. }
+             rewrite E3. rewrite (Huq (q ++ sep :: r)) by apply under_app.
+             destruct (ins (q ++ sep :: r)); cbn [andb].
+             ++ assert (E4 : beqb (p ++ sep :: r) q = false).
+                { apply beqb_neq. intros E. rewrite <- E, under_app in Hpq. discriminate. }
+                rewrite E4, under_disjoint by (try assumption; congruence). cbn [orb].
+                rewrite ?tlw_fdl, (Hup (p ++ sep :: r)) by apply under_app. now destruct (ins (p ++ sep :: r)).
+             ++ now destruct (false || under p (q ++ sep :: r)).
+          -- cbn [andb]. destruct (beqb x p) eqn:E3; cbn [orb]; [now destruct (ins x)|].
+             destruct (under p x) eqn:E4; [rewrite Hup by assumption; now destruct (ins x) | reflexivity].
+      + assert (Hid : peq (fr (tlw w') (mk FileMoved p q)) (tlw w')).
+        { unfold mk. rewrite (fr_moved _ FileMoved p q false eq_refl (proj1 Gp) (proj1 Gq)).
+          rewrite (tlw_fdl w' p), Hg', Bpq, beqb_refl. replace (if ins p then None else None) with (@None bool) by now destruct (ins p).
+          apply fput_id. intros _. rewrite tlw_fdl, Hg', beqb_refl. fold ins. now rewrite Iq. }
+        intros e [<-|[<-|[<-|[]]]]; [exact Hid | intros x; reflexivity | intros x; reflexivity].
+    - (* out: deleted *)
+      assert (Hdel : peq (fdel p (tlw w)) (tlw w')).
+      { intros x. unfold fdel, below. rewrite !tlw_fdl, Hg'. destruct (beqb x p) eqn:E3; cbn [orb].
+        - apply beqb_eq in E3. subst x. rewrite Bpq. now destruct (ins p).
+        - destruct (under p x) eqn:E4.
+          + rewrite Hup by assumption. now destruct (beqb x q) eqn:E1; [apply beqb_eq in E1; subst; fold ins; rewrite Iq | destruct (ins x)].
+          + destruct (beqb x q) eqn:E1; [|reflexivity]. apply beqb_eq in E1. subst. fold ins. now rewrite Iq. }
+      assert (Hdid : peq (fdel p (tlw w')) (tlw w')).
+      { apply fdel_id. intros x Hb. rewrite tlw_fdl, Hg'. unfold below in Hb.
+        destruct (beqb x q) eqn:E1; [apply beqb_eq in E1; subst; fold ins; now rewrite Iq|].
+        destruct (beqb x p); [now destruct (ins x)|]. cbn in Hb. rewrite Hup by assumption. now destruct (ins x). }
+      assert (He0 : forall g, fr g (if full then mk (moved_cls false) p [] else mk (deleted_cls false) p []) = fdel p g).
+      { intros g. destruct full; unfold fr, freplay1, mk; cbn [ev_cls ev_src ev_dest moved_cls deleted_cls];
+          [|reflexivity]. destruct p; [destruct Gp; contradiction | reflexivity]. }
+      split; [intros x; rewrite He0; apply Hdel|].
+      intros e [<-|[<-|[]]]; [intros x; rewrite He0; apply Hdid | intros x; reflexivity].
+    - (* in: created *)
+      assert (He0 : forall g, fr g (if full then mk (moved_cls false) [] q else mk (created_cls false) q []) = fput recursive root q false g).
+      { intros g. destruct full; reflexivity. }
+      split.
+      + intros x. rewrite He0. unfold fput. fold ins. rewrite Iq. cbn [andb]. rewrite !tlw_fdl, Hg'.
+        destruct (beqb x q) eqn:E1; [apply beqb_eq in E1; subst; now rewrite Iq|].
+        destruct (beqb x p) eqn:E3; [|reflexivity]. apply beqb_eq in E3. subst. now rewrite Ip.
+      + intros e [<-|[<-|[]]]; [|intros x; reflexivity]. intros x. rewrite He0.
+        apply fput_id. intros _. rewrite tlw_fdl, Hg', beqb_refl. fold ins. now rewrite Iq.
+    - split; [|intros e []]. intros x. rewrite !tlw_fdl, Hg'.
+      destruct (beqb x q) eqn:E1; [apply beqb_eq in E1; subst; fold ins; now rewrite Iq|].
+      destruct (beqb x p) eqn:E3; [|reflexivity]. apply beqb_eq in E3. subst. fold ins. now rewrite Ip.
+  Qed.
+End RenSem.
+
+Section RenDir.
+  Variables (full : bool) (root : bytes).
+  Let ins := in_scope true root.
+  Let fr := freplay1 true root.
+  Let tlw := tl true root.
+
+  Lemma ins_rec x : ins x = under root x.
+  Proof. unfold ins, in_scope. cbn [orb]. apply andb_true_r. Qed.
+
+  Lemma ins_below p s : ins p = true -> (s = [] \/ exists r, s = sep :: r) -> ins (p ++ s) = true.
+  Proof.
+    rewrite !ins_rec. intros H [->|[r ->]]; [now rewrite app_nil_r|]. eapply under_trans; [exact H | apply under_app].
+  Qed.
+
+  Lemma below_false_neq q k : below q k = false -> beqb k q = false.
+  Proof. unfold below. intros H. now apply orb_false_iff in H as [H _]. Qed.
+
+  Lemma relsuffix_form rel : rel <> [] -> exists r, relsuffix rel = sep :: r.
+  Proof. destruct rel as [|n rel]; [contradiction|]. intros _. unfold relsuffix. cbn. eauto. Qed.
+
+  (* a directory renamed inside the tree of a recursive watch: Moved + one synthetic Moved per descendant *)
+  Lemma ctr_rename_dir_inside w p q w' : wf_fs w -> npath p -> npath q -> apply_op w (Rename p q) = Some w' ->
+    fisdir p (w_fs w) = true -> ins p = true -> ins q = true ->
+    ctr_ok true root (tlw w) (tlw w') (contract true full root (w_fs w) (Rename p q)).
+  Proof.
+    intros W Np Nq Ha Fp Ip Iq.
+    destruct (rename_look w p q w' W Np Nq Ha) as (ep & Elp & Hne & Hpq & Hqp & Hbelow & Hqd & Hl).
+    assert (Dep : f_dir ep = true) by (unfold fisdir in Fp; now rewrite Elp in Fp).
+    assert (Gp := npath_gpath _ Np). assert (Gq := npath_gpath _ Nq).
+    assert (Bpq : beqb p q = false) by now apply beqb_neq.
+    assert (Hg : forall x, tlw w x = if ins x then fdl (w_fs w) x else None) by reflexivity.
+    assert (Hg' : forall x, tlw w' x = if ins x then fdl (w_fs w') x else None) by reflexivity.
+    assert (Hgp : tlw w p = Some true).
+    { rewrite Hg, Ip. unfold fdl. rewrite Elp. cbn. now rewrite Dep. }
+    assert (Hg'p : forall s, (exists r, s = [] \/ s = sep :: r) -> tlw w' (p ++ s) = None).
+    { intros s [r Hs]. rewrite Hg', Hl. cbv zeta.
+      assert (Hs' : s = [] \/ exists r, s = sep :: r) by (destruct Hs; eauto).
+      rewrite (below_disjoint p q s Hne Hpq Hqp Hs'), (below_app p s Hs'). now destruct (ins (p ++ s)). }
+    assert (Hg'q : forall s, (s = [] \/ exists r, s = sep :: r) -> ins (q ++ s) = true ->
+               tlw w' (q ++ s) = fdl (w_fs w) (p ++ s)).
+    { intros s Hs Hi. rewrite Hg', Hi, Hl. cbv zeta. rewrite (below_app q s Hs), skipn_app_length.
+      now rewrite (below_false_neq q (p ++ s) (below_disjoint p q s Hne Hpq Hqp Hs)). }
+    cbn [contract]. rewrite Fp. fold ins. rewrite Ip, Iq. cbn [andb moved_cls].
+    split.
+    - intros x. unfold mk. rewrite (fr_moved true root _ DirMoved p q false eq_refl (proj1 Gp) (proj1 Gq)).
+      fold tlw. rewrite Hgp. unfold fmove, fdel. fold ins. rewrite Hg', Hl. cbv zeta.
+      destruct (below q x) eqn:Bq.
+      + destruct (below_split _ _ Bq) as [Ex Hs]. set (s := skipn (length q) x) in *.
+        destruct (ins x) eqn:Ix; cbn [andb].
+        * rewrite (below_disjoint p q s Hne Hpq Hqp Hs), Hg, (ins_below p s Ip Hs).
+          rewrite (below_false_neq q (p ++ s) (below_disjoint p q s Hne Hpq Hqp Hs)).
+          now destruct (fdl (w_fs w) (p ++ s)).
+        * now destruct (below p x).
+      + cbn [andb]. rewrite Hg, (below_false_neq q x Bq). now destruct (below p x), (ins x).
+    - assert (Hid0 : peq (fr (tlw w') (mk DirMoved p q)) (tlw w')).
+      { unfold mk. rewrite (fr_moved true root _ DirMoved p q false eq_refl (proj1 Gp) (proj1 Gq)).
+        fold tlw. rewrite <- (app_nil_r p) at 1. rewrite Hg'p by (exists []; now left).
+        apply fput_id. fold ins. intros _. rewrite <- (app_nil_r q) at 1. rewrite Hg'q by (rewrite ?app_nil_r; auto).
+        rewrite app_nil_r. unfold fdl. rewrite Elp. cbn. now rewrite Dep. }
+      intros e [<-|[<-|[<-|He]]]; [exact Hid0 | intros x; reflexivity | intros x; reflexivity|].
+      apply in_app_iff in He as [He|He].
+      + unfold synth_moved in He. apply in_map_iff in He as ([k rel] & <- & Hin). cbn [fst snd].
+        unfold content in Hin. rewrite Fp in Hin.
+        destruct (desc_content_sound w W _ _ _ _ _ Hin) as (rel' & E & Hne' & e & He & Ee & De). cbn in E. subst rel'.
+        destruct (relsuffix_form rel Hne') as [r Hr]. rewrite Hr in *.
+        rewrite (fr_moved true root _ (moved_cls (kdir k)) _ _ true (cls_what_moved _));
+          [|destruct p; [destruct Gp; contradiction | discriminate] | destruct q; [destruct Gq; contradiction | discriminate]].
+        fold tlw. rewrite Hg'p by (exists r; now right). rewrite cls_isdir_moved.
+        apply fput_id. fold ins. intros Hi. rewrite Hg'q by eauto.
+        unfold fdl. rewrite <- Ee, (flookup_in _ e (wf_paths w W) He). cbn. now rewrite De.
+      + revert He. destruct (fisdir q (w_fs w) && true); [|intros []]. intros [<-|[]]. intros x. reflexivity.
+  Qed.
+End RenDir.
+
+(* ================================================================== from RSync to Contract.cover *)
+Lemma watched_dir_scope C d : watched_dir (c_recursive C) (c_root C) d = true <-> scope C d.
+Proof.
+  unfold watched_dir, scope. destruct (c_recursive C); cbn [andb].
+  - rewrite orb_true_iff, beqb_eq. tauto.
+  - rewrite orb_false_r. apply beqb_eq.
+Qed.
+
+Lemma cover_dir C w k r d : RSync C w k r -> c_mask C = WATCHDOG_ALL -> fisdir d (w_fs w) = true ->
+  cover C r k (w_fs w) d.
+Proof.
+  intros [W Hr I Cv Hq] Hm Hd. destruct (fisdir_in _ _ Hd) as (de & Hde & Ede & Dde).
+  assert (Eino : ino_of (w_fs w) d = f_ino de).
+  { unfold ino_of. rewrite <- Ede. now rewrite (flookup_in _ de (wf_paths w W) Hde). }
+  unfold cover. rewrite Eino. destruct (watched_dir (c_recursive C) (c_root C) d) eqn:Ew.
+  - apply watched_dir_scope in Ew. rewrite <- Ede in Ew. destruct (Cv de Hde Dde Ew) as (kw & Cw & Cp & Cf).
+    exists kw. destruct (watch_of_ino_some _ _ _ Cw) as [Hk _]. rewrite (wi_mask _ _ _ _ I kw Hk), <- Ede. auto.
+  - apply (not_scope_unwatched C w k r de W I Hde). rewrite Ede. intros Hs. apply watched_dir_scope in Hs. congruence.
+Qed.
+
+Lemma cover_parent C w k r p ep : RSync C w k r -> c_mask C = WATCHDOG_ALL -> flookup p (w_fs w) = Some ep -> npath p ->
+  cover C r k (w_fs w) (dirname p).
+Proof.
+  intros S Hm El Np. destruct (fisdir (dirname p) (w_fs w)) eqn:Ed; [now apply cover_dir|].
+  destruct S as [W Hr I Cv Hq]. destruct (flookup_some _ _ _ El) as [Hep Eep].
+  assert (Hnd : ~ isdir_in (dirname p) (w_fs w)).
+  { intros H. apply (in_fisdir _ _ (wf_paths w W)) in H. congruence. }
+  unfold cover. destruct (watched_dir (c_recursive C) (c_root C) (dirname p)) eqn:Ew.
+  - exfalso. apply watched_dir_scope in Ew. destruct Hr as (er & Her & Eer & Der).
+    assert (Hu : under (c_root C) (dirname p) = true \/ dirname p = c_root C).
+    { unfold scope in Ew. destruct (c_recursive C); [destruct Ew; auto | auto]. }
+    destruct Hu as [Hu|Hu].
+    + apply Hnd. rewrite <- Eep. apply (wf_parent w W ep er Hep Her). rewrite Eep, Eer.
+      eapply under_trans; [exact Hu | now apply under_dirname].
+    + apply Hnd. exists er. rewrite Hu. auto.
+  - destruct (watch_of_ino k (ino_of (w_fs w) (dirname p))) as [kw|] eqn:Ek; [|reflexivity]. exfalso.
+    apply watch_of_ino_some in Ek as [Hk Ei]. destruct (wi_exact _ _ _ _ I kw Hk) as (e & He & De & _ & Ie & _).
+    unfold ino_of in Ei. destruct (flookup (dirname p) (w_fs w)) as [f|] eqn:Ef.
+    + destruct (flookup_some _ _ _ Ef) as [Hf Efp]. assert (e = f) by (apply (ino_inj w); try assumption; congruence).
+      subst f. apply Hnd. exists e. auto.
+    + assert (H0 := wf_fresh w W e He). lia.
+Qed.
+
+Lemma no_children_absent w p : wf_fs w -> npath p -> fisdir (dirname p) (w_fs w) = true -> flookup p (w_fs w) = None ->
+  has_children p (w_fs w) = false.
+Proof.
+  intros W Np Hd Hn. destruct (fisdir_in _ _ Hd) as (de & Hde & Ede & _).
+  unfold has_children. destruct (existsb _ _) eqn:E; [|reflexivity]. exfalso.
+  apply existsb_exists in E as (e & He & Hc). apply is_child_np in Hc; [|now apply (wf_np w W)].
+  assert (Hu : under p (f_path e) = true) by (rewrite <- Hc; apply under_dirname; now apply (wf_np w W)).
+  rewrite (nothing_below w p de W Hde) in Hu; [discriminate | rewrite Ede; now apply under_dirname | | exact He].
+  left. intros (x & Hx & Ex & _). apply CoverProofs.flookup_none in Hn. apply Hn. rewrite <- Ex. now apply in_map.
+Qed.
+
+Lemma npath_wf_path p : npath p -> wf_path p.
+Proof. intros (d & n & -> & [_ Hs] & Hn). exists d, n. auto. Qed.
+
+(* ================================================================== the one-operation replay law *)
+(* the operations of C02's covered_op; Chmod must not be applied to the root itself *)
+Definition c01_op (C : cfg) (w : world) (o : op) : Prop :=
+  covered_op C w o /\
+  match o with
+  | Chmod p => p <> c_root C
+  | Rename p q => fisdir p (w_fs w) = true ->                    (* a directory: renamed inside the tree to a fresh name *)
+                  scope C p /\ c_recursive C = true /\ flookup q (w_fs w) = None
+  | _ => True
+  end.
+
+Lemma delivers_covered C full w k r o w' : RSync C w k r -> c_mask C = WATCHDOG_ALL -> c01_op C w o ->
+  apply_op w o = Some w' -> delivers C full w k r o.
+Proof.
+  intros S Hm [Ho Hch] Ha. assert (Hq := rs_queue _ _ _ _ S). assert (W := rs_wf _ _ _ _ S).
+  destruct Ho as [o Hqo Hn|p Hn|p Hn Hr|p q ep Np Nq El De Ed|p q ep Np Nq Hrec El De Sp Hpr Sq Elq
+                  |p q ep Np Nq Hrec Hfix El De Sp Hpr Sq Elq|p q ep v Np Nq Hrec El De Sp Hpr Sq Hqr Elq Dv
+                  |p q ep Np Nq El De Hpr Hqr Hupr Hpl].
+  8:{ exfalso. destruct Hch as (Sp & Hrec & _); [unfold fisdir; now rewrite El|]. destruct Hpl as [Hf|[Hs _]]; [congruence | contradiction]. }
+  7:{ exfalso. destruct Hch as (_ & _ & Hn); [unfold fisdir; now rewrite El | congruence]. }
+  6:{ exfalso. destruct Hch as [Sp' _]; [unfold fisdir; now rewrite El | contradiction]. }
+  - destruct o as [p|p|p|p|p|p|p q]; try contradiction; cbn [op_np] in Hn;
+      destruct Hn as (d & n & -> & [Hd Hs] & Hv); assert (Np : npath (d ++ sep :: n)) by (exists d, n; repeat split; assumption);
+      assert (Edn := dirname_np d n (conj Hd Hs) Hv).
+    + apply (contract_touch C full w k r Hq d n w'); try assumption. apply cover_dir; try assumption.
+      cbn [apply_op] in Ha. rewrite Edn in Ha. destruct (fisdir d (w_fs w)); [reflexivity | discriminate].
+    + apply (contract_write C full w k r Hq d n w'); try assumption. cbn [apply_op] in Ha.
+      destruct (flookup (d ++ sep :: n) (w_fs w)) as [e|] eqn:El; [|discriminate].
+      rewrite <- Edn. eapply cover_parent; eassumption.
+    + cbn [apply_op] in Ha. unfold fexists in Ha. destruct (flookup (d ++ sep :: n) (w_fs w)) as [e|] eqn:El; [|discriminate].
+      assert (Cd : cover C r k (w_fs w) d) by (rewrite <- Edn; eapply cover_parent; eassumption).
+      destruct (fisdir (d ++ sep :: n) (w_fs w)) eqn:Ef.
+      * apply (contract_chmod_dir C full w k r Hq d n w'); try assumption.
+        -- now apply cover_dir.
+        -- cbn [apply_op]. unfold fexists. now rewrite El.
+      * apply (contract_chmod_file C full w k r Hq d n w'); try assumption. cbn [apply_op]. unfold fexists. now rewrite El.
+    + apply (contract_unlink C full w k r Hq d n w'); try assumption. cbn [apply_op] in Ha.
+      destruct (flookup (d ++ sep :: n) (w_fs w)) as [e|] eqn:El; [|discriminate].
+      rewrite <- Edn. eapply cover_parent; eassumption.
+  - destruct Hn as (d & n & -> & [Hd Hs] & Hv). assert (Np : npath (d ++ sep :: n)) by (exists d, n; repeat split; assumption).
+    assert (Edn := dirname_np d n (conj Hd Hs) Hv). assert (Ha' := Ha). cbn [apply_op] in Ha'. rewrite Edn in Ha'.
+    destruct (fisdir d (w_fs w)) eqn:Fd; [|discriminate]. destruct (fexists (d ++ sep :: n) (w_fs w)) eqn:Fx; [discriminate|].
+    apply (contract_mkdir C full w k r Hq d n w'); try assumption; [now apply cover_dir|].
+    apply no_children_absent; try assumption; [now rewrite Edn|].
+    unfold fexists in Fx. now destruct (flookup (d ++ sep :: n) (w_fs w)).
+  - destruct Hn as (d & n & -> & [Hd Hs] & Hv). assert (Np : npath (d ++ sep :: n)) by (exists d, n; repeat split; assumption).
+    assert (Edn := dirname_np d n (conj Hd Hs) Hv). assert (Ha' := Ha). cbn [apply_op] in Ha'.
+    destruct (flookup (d ++ sep :: n) (w_fs w)) as [e|] eqn:El; [|discriminate]. destruct (f_dir e) eqn:De; [|discriminate].
+    apply (contract_rmdir C full w k r Hq d n w'); try assumption.
+    + rewrite <- Edn. eapply cover_parent; eassumption.
+    + apply cover_dir; try assumption. unfold fisdir. now rewrite El.
+  - destruct (rename_inv w p q w' W Np Nq Ha) as (ep' & t1 & Elp & Hne & Hupq & Edq & _ & Hbelow & Hq1).
+    assert (ep' = ep) by congruence. subst ep'.
+    destruct Np as (dp & np & -> & [Hdp Hsp] & Hvp). destruct Nq as (dq & nq & -> & [Hdq Hsq] & Hvq).
+    rewrite (dirname_np dq nq (conj Hdq Hsq) Hvq) in Edq. rewrite (dirname_np dp np (conj Hdp Hsp) Hvp) in Ed.
+    apply (contract_rename_file C full w k r Hq dp np dq nq w'); try assumption; try (now apply cover_dir).
+    + unfold fisdir. now rewrite El.
+    + unfold fisdir. destruct Hq1 as [[-> _]|(v & -> & _ & [[_ Hv]|(Hd & _)])]; [reflexivity | exact Hv | congruence].
+  - destruct (rename_inv w p q w' W Np Nq Ha) as (ep' & t1 & Elp & Hne & Hupq & Edq & _ & Hbelow & Hq1).
+    assert (Cp : cover C r k (w_fs w) (dirname p)) by (eapply cover_parent; eassumption).
+    assert (Npp := Np). assert (Nqq := Nq).
+    destruct Np as (dp & np & -> & [Hdp Hsp] & Hvp). destruct Nq as (dq & nq & -> & [Hdq Hsq] & Hvq).
+    rewrite (dirname_np dq nq (conj Hdq Hsq) Hvq) in Edq. rewrite (dirname_np dp np (conj Hdp Hsp) Hvp) in Cp.
+    apply (contract_rename_dir C full w k r Hq dp np dq nq w'); try assumption; try (now apply cover_dir).
+    + unfold fisdir. now rewrite El.
+    + unfold fexists. now rewrite Elq.
+    + intros e He. apply npath_wf_path. now apply (wf_np w W).
+Qed.
+
+Lemma ctr_ok_covered C full w o w' : wf_fs w -> c01_op C w o -> apply_op w o = Some w' ->
+  ctr_ok (c_recursive C) (c_root C) (tl (c_recursive C) (c_root C) w) (tl (c_recursive C) (c_root C) w')
+         (contract (c_recursive C) full (c_root C) (w_fs w) o).
+Proof.
+  intros W [Ho Hch] Ha.
+  destruct Ho as [o Hqo Hn|p Hn|p Hn Hr|p q ep Np Nq El De Ed|p q ep Np Nq Hrec El De Sp Hpr Sq Elq
+                  |p q ep Np Nq Hrec Hfix El De Sp Hpr Sq Elq|p q ep v Np Nq Hrec El De Sp Hpr Sq Hqr Elq Dv
+                  |p q ep Np Nq El De Hpr Hqr Hupr Hpl].
+  8:{ exfalso. destruct Hch as (Sp & Hrec & _); [unfold fisdir; now rewrite El|]. destruct Hpl as [Hf|[Hs _]]; [congruence | contradiction]. }
+  7:{ exfalso. destruct Hch as (_ & _ & Hn); [unfold fisdir; now rewrite El | congruence]. }
+  6:{ exfalso. destruct Hch as [Sp' _]; [unfold fisdir; now rewrite El | contradiction]. }
+  - destruct o as [p|p|p|p|p|p|p q]; try contradiction.
+    + now apply ctr_touch.
+    + now apply ctr_write.
+    + now apply ctr_chmod.
+    + now apply ctr_unlink.
+  - now apply ctr_mkdir.
+  - now apply ctr_rmdir.
+  - apply ctr_rename_file; try assumption. unfold fisdir. now rewrite El.
+  - rewrite Hrec. 
+    assert (Hqr : q <> c_root C).
+    { intros E. unfold scope in Sp. rewrite Hrec in Sp. destruct Sp as [Sp|Sp]; [contradiction|].
+      destruct (rename_look w p q w' W Np Nq Ha) as (_ & _ & _ & _ & Hqp & _). rewrite E, Sp in Hqp. discriminate. }
+    apply ctr_rename_dir_inside; try assumption.
+    + unfold fisdir. now rewrite El.
+    + unfold in_scope. cbn [orb]. rewrite andb_true_r. unfold scope in Sp. rewrite Hrec in Sp. destruct Sp; [contradiction | assumption].
+    + unfold in_scope. cbn [orb]. rewrite andb_true_r. unfold scope in Sq. rewrite Hrec in Sq. destruct Sq; [contradiction | assumption].
+Qed.
+
+Definition delivered (C : cfg) (full : bool) (w' : world) (raws : list raw) : list nevent :=
+  emit_all full (c_recursive C) (c_root C) (content (w_fs w')) (group_batch C raws).
+
+(* One operation, one read of the whole kernel queue, grouping (a MOVED_FROM/MOVED_TO pair of one cookie is one item),
+   emission: the reader is synchronised again and the replayed tree follows the real tree. *)
+Theorem replay_step C full w k r o w' t : c_faults C = [] -> c_mask C = WATCHDOG_ALL ->
+  RSync C w k r -> c01_op C w o -> apply_op w o = Some w' -> TInv (c_recursive C) (c_root C) t w ->
+  let k1 := kernel_op k (w_fs w) o in
+  exists r' k' raws,
+    read_batch C (w_fs w') (r, drainq k1, []) (k_queue k1) = Done (r', k', raws) /\ RSync C w' k' r' /\
+    deliver_one C full w k r o = Some (delivered C full w' raws) /\
+    TInv (c_recursive C) (c_root C) (replay (c_recursive C) (c_root C) t (delivered C full w' raws)) w'.
+Proof.
+  intros Hf Hm S Ho Ha [Tn Tg] k1.
+  assert (M : mask_ok C) by (unfold mask_ok; rewrite Hm; repeat split; vm_compute; discriminate).
+  destruct (cover_step C Hf w k r o w' M S (proj1 Ho) Ha) as (r' & k' & raws & Hrd & S').
+  destruct (delivers_covered C full w k r o w' S Hm Ho Ha) as (evs & Hdel & Hcol).
+  assert (Hev : evs = delivered C full w' raws).
+  { unfold deliver_one in Hdel. rewrite Ha in Hdel.
+    change (kdrained (kernel_op k (w_fs w) o)) with (drainq (kernel_op k (w_fs w) o)) in Hdel.
+    subst k1. rewrite Hrd in Hdel. now injection Hdel as <-. }
+  exists r', k', raws. split; [exact Hrd|]. split; [exact S'|]. split; [now rewrite <- Hev|].
+  rewrite <- Hev. unfold TInv.
+  apply (replay_contract (c_recursive C) (c_root C) evs _ t (tl (c_recursive C) (c_root C) w)
+                         (tl (c_recursive C) (c_root C) w') Hcol); try assumption.
+  apply ctr_ok_covered; try assumption. apply S.
+Qed.
+
+(* ================================================================== sequential histories *)
+(* op; read the whole kernel queue; group; emit - repeated.  The accumulated stream is [out]. *)
+Fixpoint drun (C : cfg) (full : bool) (w : world) (k : kst) (r : rstate) (ops : list op) (out : list nevent)
+  : option (world * kst * rstate * list nevent) :=
+  match ops with
+  | [] => Some (w, k, r, out)
+  | o :: ops' =>
+    match apply_op w o with
+    | None => drun C full w k r ops' out
+    | Some w' => let k1 := kernel_op k (w_fs w) o in
+                 match read_batch C (w_fs w') (r, drainq k1, []) (k_queue k1) with
+                 | Done (r', k', raws) => drun C full w' k' r' ops' (out ++ delivered C full w' raws)
+                 | Crash _ => None
+                 end
+    end
+  end.
+
+Fixpoint ops_c01 (C : cfg) (w : world) (ops : list op) : Prop :=
+  match ops with
+  | [] => True
+  | o :: ops' => match apply_op w o with
+                 | None => ops_c01 C w ops'
+                 | Some w' => c01_op C w o /\ ops_c01 C w' ops'
+                 end
+  end.
+
+Theorem replay_sequential C full : c_faults C = [] -> c_mask C = WATCHDOG_ALL ->
+  forall ops w k r t0 out, RSync C w k r ->
+  TInv (c_recursive C) (c_root C) (replay (c_recursive C) (c_root C) t0 out) w -> ops_c01 C w ops ->
+  exists w' k' r' out', drun C full w k r ops out = Some (w', k', r', out') /\ RSync C w' k' r' /\
+    TInv (c_recursive C) (c_root C) (replay (c_recursive C) (c_root C) t0 out') w'.
+Proof.
+  intros Hf Hm. induction ops as [|o ops IH]; intros w k r t0 out S T Hc; cbn [drun ops_c01] in *.
+  - eauto 8.
+  - destruct (apply_op w o) as [w'|] eqn:Ea; [|now apply IH].
+    destruct Hc as [Ho Hc].
+    destruct (replay_step C full w k r o w' _ Hf Hm S Ho Ea T) as (r' & k' & raws & -> & S' & _ & T').
+    apply IH; try assumption. unfold replay in *. now rewrite fold_left_app.
+Qed.
+
+Theorem replay_from_start C full ops w : c_faults C = [] -> c_mask C = WATCHDOG_ALL -> wf_fs w ->
+  fisdir (c_root C) (w_fs w) = true -> ops_c01 C w ops ->
+  exists r0 k0 w' k' r' out, construct C kinit (w_fs w) = Some (r0, k0) /\
+    drun C full w k0 r0 ops [] = Some (w', k', r', out) /\
+    forall x, alookup beqb x (replay (c_recursive C) (c_root C) (tree_of (c_recursive C) (c_root C) w) out)
+            = alookup beqb x (tree_of (c_recursive C) (c_root C) w').
+Proof.
+  intros Hf Hm W Hroot Hc. destruct (construct_cover C Hf w W Hroot) as (r0 & k0 & Hcons & I & Cv & Hq & _).
+  assert (S : RSync C w k0 r0) by (constructor; try assumption; now apply fisdir_in).
+  destruct (replay_sequential C full Hf Hm ops w k0 r0 (tree_of (c_recursive C) (c_root C) w) [] S (TInv_init _ _ w W) Hc)
+    as (w' & k' & r' & out & Hrun & _ & T).
+  exists r0, k0, w', k', r', out. split; [exact Hcons|]. split; [exact Hrun|]. now apply TInv_tree_eq.
+Qed.
+
+(* ================================================================== vocabulary of the full statements (Pipeline level) *)
+Require Import WD.Model.DelayQueue WD.Model.Grouping WD.Model.Pipeline.
 
 (* drain: read everything, then emit / let time pass until the delay queue is empty *)
-Fixpoint emit_all (P : pcfg) (fuel : nat) (s : pstate) : outcome pstate :=
+Fixpoint pump (P : pcfg) (fuel : nat) (s : pstate) : outcome pstate :=
   match fuel with
   | O => Done s
   | S f =>
@@ -62,10 +1115,10 @@ Fixpoint emit_all (P : pcfg) (fuel : nat) (s : pstate) : outcome pstate :=
            | Crash c => Crash c
            | Done (s1, OSkip) =>
              match pstep P s (ATick (pc_delay P)) with
-             | Done (s2, _) => emit_all P f s2
+             | Done (s2, _) => pump P f s2
              | Crash c => Crash c
              end
-           | Done (s1, _) => emit_all P f s1
+           | Done (s1, _) => pump P f s1
            end
     end
   end.
@@ -73,7 +1126,7 @@ Fixpoint emit_all (P : pcfg) (fuel : nat) (s : pstate) : outcome pstate :=
 Definition drain (P : pcfg) (fuel : nat) (s : pstate) : outcome pstate :=
   match pstep P s (ARead (length (k_queue (p_k s)))) with
   | Crash c => Crash c
-  | Done (s1, _) => emit_all P fuel s1
+  | Done (s1, _) => pump P fuel s1
   end.
 
 (* op; drain; op; drain; ... *)
@@ -90,75 +1143,10 @@ Fixpoint seq_run (P : pcfg) (fuel : nat) (s : pstate) (ops : list op) : outcome 
     end
   end.
 
-(* the reader + emitter composition on one read: every raw event translated as a single (no pairing) *)
-Definition emit_singles (C : cfg) (full : bool) (content : bytes -> SubEvents.tree) (evs : list raw) : list nevent :=
-  flat_map (fun e => fst (emit_single full (c_recursive C) (c_root C) content e)) evs.
+(* a computable comparison of two trees as finite maps *)
+Definition tree_sub (a b : tree) : bool :=
+  forallb (fun kv => match alookup beqb (fst kv) b with Some v => Bool.eqb v (snd kv) | None => false end) a.
+Definition same_tree (a b : tree) : bool := tree_sub a b && tree_sub b a.
 
-(* ---- Touch: what the reader produced for it replays to "the file exists" *)
-Lemma replay_touch recursive root full rec wroot content wd name p t :
-  replay recursive root t (flat_map (fun e => fst (emit_single full rec wroot content e)) (touch_raws wd name p))
-  = tput recursive root p false t.
-Proof. reflexivity. Qed.
-
-Lemma touch_sequential C w k r de name w' full content t :
-  RSync C w k r -> c_mask C = WATCHDOG_ALL ->
-  In de (w_fs w) -> f_dir de = true -> scope C (f_path de) -> valid_name name = true ->
-  let p := f_path de ++ sep :: name in
-  apply_op w (Touch p) = Some w' ->
-  let k1 := kernel_op k (w_fs w) (Touch p) in
-  exists evs, read_batch C (w_fs w') (r, drainq k1, []) (k_queue k1) = Done (r, drainq k1, evs) /\
-    replay (c_recursive C) (c_root C) t (emit_singles C full content evs) = tput (c_recursive C) (c_root C) p false t /\
-    w_fs w' = w_fs w ++ [{| f_path := p; f_ino := w_next_ino w; f_dir := false |}].
-Proof.
-  intros S Hm Hde Dde Sde Vn p Ha k1.
-  destruct (probe_raws C w k r de name w' S Hm Hde Dde Sde Vn Ha) as (wd & H).
-  exists (touch_raws wd name p). split; [exact H|]. split; [apply replay_touch|].
-  cbn [apply_op] in Ha. destruct (fisdir (dirname p) (w_fs w) && negb (fexists p (w_fs w))); [|discriminate].
-  now injection Ha as <-.
-Qed.
-
-Lemma aset_absent (k : bytes) (v : bool) (m : tree) : ~ In k (map fst m) -> aset beqb k v m = m ++ [(k, v)].
-Proof.
-  induction m as [|[a b] m IH]; cbn; intros H; [reflexivity|].
-  destruct (beqb k a) eqn:E; [apply beqb_eq in E; exfalso; apply H; now left|].
-  f_equal. apply IH. intros Hin. apply H. now right.
-Qed.
-
-(* the tree after Touch p is the old tree with p inserted (when p is in scope) *)
-Lemma tree_of_touch recursive root w p ino : ~ In p (map f_path (w_fs w)) ->
-  tree_of recursive root {| w_fs := w_fs w ++ [{| f_path := p; f_ino := ino; f_dir := false |}]; w_next_ino := ino + 1 |}
-  = tput recursive root p false (tree_of recursive root w).
-Proof.
-  intros Hp. unfold tree_of, tput. cbn [w_fs]. rewrite filter_app, map_app. cbn [filter f_path].
-  destruct (in_scope recursive root p); cbn [map f_path f_dir].
-  - rewrite aset_absent; [reflexivity|]. rewrite map_map. cbn [fst]. intros Hin. apply Hp.
-    apply in_map_iff in Hin as (e & Ee & He). apply filter_In in He as [He _]. rewrite <- Ee. now apply in_map.
-  - now rewrite app_nil_r.
-Qed.
-
-(* C01, sequential layer, Touch: from a synchronised state whose replayed stream equals the tree, after Touch p in a
-   covered directory and one full read, the replay of (old stream ++ translation of the new raw events) equals the new tree.
-   Stated for the reader + emitter composition (every raw event of the read translated by emit_single), not through
-   the delay queue. *)
-Theorem C01_touch_reader_emitter C w k r de name w' full content t0 out :
-  RSync C w k r -> c_mask C = WATCHDOG_ALL ->
-  In de (w_fs w) -> f_dir de = true -> scope C (f_path de) -> valid_name name = true ->
-  let p := f_path de ++ sep :: name in
-  apply_op w (Touch p) = Some w' ->
-  replay (c_recursive C) (c_root C) t0 out = tree_of (c_recursive C) (c_root C) w ->
-  let k1 := kernel_op k (w_fs w) (Touch p) in
-  exists evs, read_batch C (w_fs w') (r, drainq k1, []) (k_queue k1) = Done (r, drainq k1, evs) /\
-    RSync C w' (drainq k1) r /\
-    replay (c_recursive C) (c_root C) t0 (out ++ emit_singles C full content evs) = tree_of (c_recursive C) (c_root C) w'.
-Proof.
-  intros S Hm Hde Dde Sde Vn p Ha Hrep k1.
-  destruct (touch_sequential C w k r de name w' full content (tree_of (c_recursive C) (c_root C) w) S Hm Hde Dde Sde Vn Ha)
-    as (evs & Hrd & Hre & Hfs).
-  exists evs. split; [exact Hrd|]. split.
-  - assert (Np : npath p).
-    { exists (f_path de), name. split; [reflexivity|]. split; [|exact Vn]. apply npath_gpath. apply (wf_np w); [apply S | exact Hde]. }
-    destruct (step_quiet C w k r (Touch p) w' S Np I Ha) as (evs' & _ & _ & S'). exact S'.
-  - unfold replay in *. rewrite fold_left_app, Hrep, Hre. assert (Ha' := Ha). cbn [apply_op] in Ha'.
-    destruct (fisdir (dirname p) (w_fs w)) eqn:Ed; [|discriminate]. destruct (fexists p (w_fs w)) eqn:Ex; [discriminate|].
-    cbn in Ha'. injection Ha' as <-. symmetry. apply tree_of_touch. now apply fexists_false.
-Qed.
+Lemma ops_c01_cons C w o ops w' : apply_op w o = Some w' -> c01_op C w o -> ops_c01 C w' ops -> ops_c01 C w (o :: ops).
+Proof. intros Ha Ho Hc. cbn [ops_c01]. rewrite Ha. now split. Qed.
